@@ -110,6 +110,11 @@ def gen_case(rng):
         if mixed:
             fmts = [fmts[0]] * k
             mixed = False
+    elif k >= 2 and 0.46 <= special < 0.54:
+        # OVERLAPPING parts: the second one starts while the first is still running (same dump grid or shifted by a
+        # fraction of a dump); the order is still the one of the start times, the timestamps of the whole are not monotonic
+        kind = 'overlap'
+        starts[1] = starts[0] + rng.choice([1, 2, 3, 4, 5])
     elif k >= 2 and special < 0.11:
         kind = 'period'
         # clearly different, or different only beyond the 6 significant digits the error message prints
@@ -1382,17 +1387,23 @@ def run_case(ctx, cseed, gen=None, stages=('open', 'data', 'select', 'scans', 'o
                 stage_data(cs, c, [arrays[i] for i in sorted_idx], (tks, [1] * arrays[0]['vis'].shape[1], [1] * arrays[0]['vis'].shape[2]),
                            drng, ctx.scale(4, 8), 'after=open')
             single = len(c.subarrays) == 1 and len(c.spectral_windows) == 1
+            offgrid = gen['kind'] == 'overlap' and len(dps) == 1 and \
+                any(((o['ts'][0] - t_epoch) / dps[0]) % 1 for o in infos if len(o['ts']))
+            if offgrid:
+                # overlapping parts shifted by a fraction of a dump: no common dump grid for C02's observation of the
+                # whole; like v3+v4 mixtures they get the model-free battery of index-free criteria against the twins
+                ctx.count('overlapping_parts_off_the_dump_grid')
             if 'order' in stages and len(parts) >= 2 and cs.bad == 0:
                 stage_order(cs, parts, c, names, order, drng)
             ob = None
-            if 'select' in stages and single and cs.bad == 0:
+            if 'select' in stages and single and cs.bad == 0 and not offgrid:
                 wp_sorted = [part_wire(infos[i], t_epoch, unit, starts, dps, names) for i in order]
                 ob = stage_select(cs, c, parts, twins, infos, arrays, sorted_idx, wp_sorted, names, ctx.scale(2, 4))
             if 'scans' in stages and single and cs.bad == 0 and ob is not None:
                 stage_scans(cs, ob, drng)
-            if 'select' in stages and not single and cs.bad == 0 and gen['mixed']:
+            if 'select' in stages and cs.bad == 0 and ((not single and gen['mixed']) or offgrid):
                 stage_multi_plain(cs, c, twins, arrays, sorted_idx, drng)
-            if 'select' in stages and not single and cs.bad == 0 and same_shape and not gen['mixed']:
+            if 'select' in stages and not single and cs.bad == 0 and same_shape and not gen['mixed'] and not offgrid:
                 wp = [part_wire(infos[i], t_epoch, unit, starts, dps, names) for i in order]
                 stage_multi(cs, c, parts, twins, infos, arrays, sorted_idx, wp, names, ctx.scale(1, 2))
     finally:
@@ -1605,7 +1616,7 @@ def run(ctx):
         kinds[qkind(cs.gen)] = kinds.get(qkind(cs.gen), 0) + 1
     # every run meets every special kind of case a few times, whatever the seed
     quota = {'period': ctx.scale(3, 30), 'periodclose': ctx.scale(3, 30), 'tie': ctx.scale(2, 20), 'subarray': ctx.scale(2, 30), 'spw': ctx.scale(2, 30),
-             'subperm': ctx.scale(3, 30), 'subdesc': ctx.scale(2, 20), 'spwvar': ctx.scale(3, 30), 'multi': ctx.scale(3, 40)}
+             'subperm': ctx.scale(3, 30), 'overlap': ctx.scale(4, 40), 'subdesc': ctx.scale(2, 20), 'spwvar': ctx.scale(3, 30), 'multi': ctx.scale(3, 40)}
     tries = 0
     while any(kinds.get(k, 0) < q for k, q in quota.items()) and tries < 20000:
         tries += 1
